@@ -44,7 +44,6 @@ CLASSES = [
     ClassDecl("ExecutionPlan", file="execution/plan.py",
               fields={"task_to_run": "TaskType", "all_ops": "List[Operation]#allops", "initial_ops": "List[Operation]#initops",
                       "cached_tasks": "List[TaskType]#cached", "num_tasks_to_run": "int"}),
-    ClassDecl("SigchldHelper", file="utils/sigchld.py"),
     ClassDecl("OSError", exception=True, bases=["BaseException"], fields={"errno": "int"}),
 ]
 
